@@ -106,7 +106,8 @@ def exh_monitor(ix, rep, mon, matrix=None, rule='R-EXH'):
             if not sites:
                 rep.fail(rule, where, sym, slot, 'handler stores no operator in online_operator_dict[node.name]', line)
                 continue
-            if not _visits_children(f):
+            leaf = ix.find_class('rtamt.syntax.node.leaf_node', 'LeafNode')
+            if not _visits_children(f) and not (leaf is not None and ix.is_subclass(nc, leaf)):
                 rep.fail(rule, where, sym, slot, 'handler does not construct the operators of its children', line)
                 continue
             bad = False
